@@ -218,6 +218,7 @@ func main() {
 		selftestN = flag.Int("selftest", 2, "determinism self-test: replays of one recorded schedule")
 		budgets   = flag.String("budgets", "", "iterative deviation bounding, e.g. \"0,0;1,0;0,1;1,1\" (-1 = unbounded); default: by tier")
 		choices   = flag.String("choices", "", "with -config: run one execution from this comma-separated choice list and print it")
+		free      = flag.Int("free", 0, "supplementary pass: run every configuration of the tier N times FREE-RUNNING (real goroutines, shim in pass-through mode); build with -race")
 	)
 	flag.Parse()
 	wb := *budgets
@@ -239,6 +240,8 @@ func main() {
 		}
 	case *replay != "":
 		os.Exit(doReplay(*replay))
+	case *free > 0:
+		os.Exit(doFree(*tier, *config, *free))
 	case *choices != "" || (*config != "" && flag.NArg() > 0 && flag.Arg(0) == "run"):
 		os.Exit(doRun(*config, *choices))
 	case *worker:
